@@ -167,3 +167,31 @@ func solve(script string, file string, timeout time.Duration, needModel bool) So
 	res.Status = st
 	return res
 }
+
+// solveStaged: establish which return points are unreachable under the clause's hypothesis (each a small query),
+// assert those facts, then try the goal again.  Every added fact is itself proved, so the result is as sound as
+// the direct query.
+func solveStaged(vc VC, file string, timeout time.Duration, first SolveResult) SolveResult {
+	var lemmas []string
+	short := timeout / 3
+	if short > 3*time.Second {
+		short = 3 * time.Second
+	}
+	for i, c := range vc.StageCands {
+		q := vc.StageBase + "(assert " + vc.StageHyp + ")\n(assert " + c + ")\n(check-sat)\n"
+		r := solve(q, fmt.Sprintf("%s.stage%d.smt2", strings.TrimSuffix(file, ".smt2"), i), short, false)
+		if r.Status == "unsat" {
+			lemmas = append(lemmas, "(assert (not "+c+"))")
+		}
+	}
+	if len(lemmas) == 0 {
+		return first
+	}
+	q := vc.StageBase + "(assert " + vc.StageHyp + ")\n" + strings.Join(lemmas, "\n") + "\n(assert (not " + vc.StageGoal + "))\n(check-sat)\n"
+	r := solve(q, strings.TrimSuffix(file, ".smt2")+".staged.smt2", timeout, false)
+	if r.Status == "unsat" {
+		r.Output = fmt.Sprintf("discharged after establishing %d unreachable return points", len(lemmas))
+		return r
+	}
+	return first
+}
